@@ -10,7 +10,8 @@
     are computed with arithmetic that works on tracers, then
       (a) records it in tape mode (make_qscript), (b) captures it (qp.capture.make_plxpr or jax.make_jaxpr; static and
       dynamic bounds / predicates / parameters; single-gate statements optionally through qp.capture.subroutine) and converts
-      back with qp.tape.plxpr_to_tape,
+      back with qp.tape.plxpr_to_tape, (c) writes it as Python SOURCE with native for / while / if, runs that in tape mode
+      and captures it with make_plxpr(autograph=True),
     and compares both, operator by operator (names, wires, parameters, wrapper structure, order; measurements; returned loop
     values via CollectOpsandMeas), with the recording TLC expects.
     REL: for the one transform that has a plxpr implementation in this tree (decompose: DecomposeInterpreter /
@@ -131,7 +132,7 @@ def run(tier, seed):
     rng = random.Random(seed)
     quick = tier == "quick"
     B, S = (2, 2) if quick else (3, 3)
-    nrand, depth, budget = (700, 3, 9) if quick else (12000, 4, 14)
+    nrand, depth, budget = (700, 3, 9) if quick else (5000, 4, 14)
     extras = families(B, S)
     nfam = len(extras)
     extras += random_programs(rng, nrand, depth, budget)
@@ -144,7 +145,7 @@ def run(tier, seed):
     wd = lib.workdir("C42", "gen")
     (wd / "extra.json").write_text(json.dumps(ex))
     kinds = "{" + ",".join(f'"{k}"' for k in KINDS) + "}"
-    consts = {"MaxSize": 3 if quick else 4, "MaxDepth": 2, "NFlav": 2 if quick else 4, "RangeB": B + 1, "MaxRef": 1, "UseExtra": "TRUE"}
+    consts = {"MaxSize": 3 if quick else 4, "MaxDepth": 2, "NFlav": 2, "RangeB": B + 1, "MaxRef": 1, "UseExtra": "TRUE"}
     g = lib.run_tlc_mc("QCapGen", {"Kinds": kinds, "ForSpecs": "{<<0,2,1,0>>, <<1,-1,-1,1>>}", "WhileSpecs": "{<<0,2,1>>}",
                                    "CondPreds": "{<<2>>, <<0,3>>}"}, wd, constants=consts, init="InitLaw",
                        invariants=qprog.INVARIANTS, properties=["InnermostOnly"], constraints=["EmitCap"], timeout=3300,
@@ -325,7 +326,7 @@ def unitary_only(prog):
 def transform_part(tier, rng, good, report):
     from pennylane.transforms.decompose import DecomposeInterpreter, decompose_plxpr_to_plxpr
     quick = tier == "quick"
-    limit = 160 if quick else 1500
+    limit = 160 if quick else 800
     maxw = 5 if quick else 6
     cases, meta = [], []
     cnt = collections.Counter()
@@ -469,6 +470,16 @@ def transform_part(tier, rng, good, report):
         out["rel_by_way"] = dict(by_way)
         if nneg == 0 or out["rel_negative_controls_rejected"] != nneg:
             raise MachineryError(f"REL negative controls rejected {out['rel_negative_controls_rejected']}/{nneg}")
+    # observation (outside the statement, never a violation): a qfunc wrapped by a transform WITHOUT plxpr implementation is
+    # captured as an opaque "transform" primitive; plxpr_to_tape evaluates it outside the collector
+    try:
+        probe = [N("do", [], [[N("G")]]), N("do", [], [[N("G")]])]
+        t0, _ = tape_mode(probe, 0, XR, YR)
+        t9, _, _ = capture_mode(probe, 0, XR, YR, False, "make_plxpr", wrap=qp.transforms.cancel_inverses)
+        out["opaque_transform_primitive_probe"] = {"transform": "cancel_inverses", "tape_mode_ops": len(t0.operations),
+                                                   "ops_after_capture_round_trip": len(t9.operations)}
+    except Exception as e:                           # pylint: disable=broad-except
+        out["opaque_transform_primitive_probe"] = {"error": f"{type(e).__name__}: {str(e)[:120]}"}
     out["rel_skips"] = {k: v for k, v in cnt.items() if k.startswith("skip")}
     out["rel_outputs_changed_by_decompose"] = cnt["changed"]
     return out
